@@ -91,6 +91,11 @@ CLAIMED = {
     text='For each shipped code the encoder gate list is read from the live object and handed to TLC as the program: TLC derives the stabilizer generators with the Clifford tableau, decides Knill-Laflamme for EVERY Pauli error of weight 1..d-1 (one state per error; pull-back rule cross-checked against the textbook commutation/group-membership formulation), and decides that each listed stabilizer string lies in +<S>. The real code words, knill_laflamme_inner_product on make_error_list, the shipped stabilizer circuits, make_error_list / make_asymmetric_error_set (n<=6, d<=4, four Z-weights) and quantum_weight_enumerator are then compared with / validated by TLC against those decisions (full <i|E|j> matrices incl. weight-d errors that violate KL).',
     note='Trusted: TLC/SANY, gate-tableaux derivation (MC_CliffordGates), state-vector comparisons at 1e-9; listed strings are read from the source text of generate_code*. (11,2,5) only in thorough.',
     technique='TLA+ stabilizer-code spec on the Clifford tableau; TLC exhaustive enumeration of the error set per code; TLC trace validation of recorded error sets, KL matrices and weight enumerators'),
+ 'C20': dict(
+    cat='model_checking', ref='6/C20',
+    text='The seven structure classes of get_matrix_orthogonal_basis are specified as a decision table (complex?, scalar field, symmetric?, Hermitian?) with their ambient dimensions, and the dimension of the span of (Gaussian-)integer generators is computed exactly by fraction-free elimination over Z / Z[i] in TLA+. TLC enumerates instances of every class (real and complex generators, sizes 2..3 / 4, non-square for the general classes, planted linear dependencies); each is handed to the library and the recorded (label, dim basis, dim complement) is validated by TLC: label = table entry, dim basis = exact dimension, dim basis + dim complement = ambient. Rank certificates: TLC builds subspaces with a PLANTED element of rank r-1 (real / complex bipartite, r = 2, 3) or a planted product vector (tripartite), hidden by a unimodular basis change, and proves the provenance (P in the span, exact rank of P, independence); the subspace is handed over as an orthonormal basis and TLC rejects any recorded positive answer of has_rank_hierarchical_method (levels 1..2/3), detect_real_matrix_subspace_rank_one (150 / 1000 planted instances) or is_ABC_completely_entangled_subspace.',
+    note='NOT covered: orthogonality / equal norm / equal span of the floating bases, numerical-range support points. The orthonormal basis handed to the certificates is produced by numpy QR in the harness.',
+    technique='TLA+ decision table + exact rank by fraction-free elimination; TLC-proved provenance of planted low-rank elements; TLC trace validation of recorded labels, dimensions and certificates'),
 }
 
 NOT_APPLICABLE = {
